@@ -170,7 +170,7 @@ func CheckC08(r *core.Run) {
 		r.AddDistinct(fmt.Sprint(t.Meta))
 		r.AddEvals(int64(len(t.Events)))
 	}
-	r.Extra["fault_runs"] = len(jobs)
+	r.SetExtra("fault_runs", len(jobs))
 	sampleTrace(r, traces)
 	if len(jobs) > 0 {
 		r.AddSample(map[string]interface{}{"fault_plan": jobs[len(jobs)/2].plan.String(), "history": jobs[len(jobs)/2].c.String()})
